@@ -4,6 +4,7 @@
   and Receiver.lean.
 -/
 import Saltpack.Proofs.RoundTripSig
+import Saltpack.Proofs.SignReader
 import Saltpack.Toy
 
 namespace Saltpack.Props.C07
@@ -70,7 +71,30 @@ theorem C07_wrong_mode_refused (P : Prims) (valid : Validator) (kr : Keyring) (h
     cases hhr
     exact absurd htyp ht
 
+/-! ## the message given as a reader -/
+
+/-- **Any reader fragmentation**: a reader that delivers the message in any
+    fragments `frags` and reports EOF either alone or together with a last
+    fragment gives exactly the answer of the bytes form on the concatenation —
+    so genuine signatures verify and every altered message is refused
+    (`C07_roundtrip`, `C07_sound`) however the reader delivers it. -/
+theorem C07_reader_any_fragmentation (P : Prims) (valid : Validator) (kr : Keyring)
+    (hr : HeaderRead SigHeader) (sr : Sign.SigRead) (frags : List Bytes) (last : Option Bytes) :
+    Sign.verifyDetachedReader P valid kr hr sr (Proofs.fragSource frags last)
+      = Sign.verifyDetached P valid kr hr sr (frags.flatten ++ last.getD []) :=
+  Proofs.verifyDetachedReader_eq P valid kr hr sr _ _ (Proofs.copyAll_frag frags last)
+
+/-- a reader that fails (alone or with data, after any fragments) never yields a
+    successful verification -/
+theorem C07_reader_fault_refused (P : Prims) (valid : Validator) (kr : Keyring)
+    (hr : HeaderRead SigHeader) (sr : Sign.SigRead) (frags : List Bytes) (d : Bytes) (z : Err)
+    (rest : Stream.Source) :
+    ∃ e, Sign.verifyDetachedReader P valid kr hr sr (frags.map (·, none) ++ (d, some (.err z)) :: rest) = .error e :=
+  Proofs.verifyDetachedReader_fault P valid kr hr sr _ z (Proofs.copyAll_fault frags d z rest)
+
 /-! ## non-vacuity -/
+example : Sign.copyAll [([1, 2], none), ([], none), ([3], some .eof), ([9], none)] = ([1, 2, 3], none) := by decide
+
 example : Toy.prims.Lawful := Toy.lawful
 
 end Saltpack.Props.C07
